@@ -133,6 +133,14 @@ def build(bp, variant: Optional[dict] = None, classes: Optional[dict] = None, su
                     kwargs[k] = tag(v)
                     break
         obj = cls(**kwargs)
+        early = bool(variant and variant.get("early"))
+        if early:
+            # an identifier request while the configuration is still being filled in: whatever it
+            # returns (or raises: a required value may be missing), it must not stick
+            try:
+                obj.__xpm__.identifier
+            except Exception:
+                pass
         for k, v in later:
             setattr(obj, k, B.decode(v))
         B.objs.append(obj)
@@ -143,6 +151,11 @@ def build(bp, variant: Optional[dict] = None, classes: Optional[dict] = None, su
         if node.get("pre"):
             obj.add_pretasks(*[B.objs[i] for i in node["pre"]])
         for target, param, value in node.get("patches") or []:
+            if early:
+                try:
+                    B.objs[target].__xpm__.identifier
+                except Exception:
+                    pass
             setattr(B.objs[target], param, B.decode(value))
         if node.get("submit") is not None:
             kw = dict(run_mode=RunMode.DRY_RUN)
